@@ -21,9 +21,10 @@ RULE = ("case kinds: gen (gen_from_u64 of one integer range on a list of adversa
         "once); float (Range<f64> on 20 raws near 0, 2^11, 2^53, 2^63, 2^64: bit-exact against the same IEEE operations in Lean "
         "`Float` + predicate start <= x < end; huge/tiny/negative/adjacent/overflowing-length/infinite/NaN bounds); stream "
         "(next_raw words for a seed; equal seeds and a Copy taken mid-stream agree; equal to the model's LCG+scramble); draws "
-        "(next(range) x 24 from a seed); period (next(0..m) has no period p on p+96 draws); shuffle (seeded: multiset "
+        "(next(range) x 24 from a seed); fdraws (next(start..end) on f64 x 16 from a seed, bit-exact); period (next(0..m) has no period p on p+96 draws); shuffle (seeded: multiset "
         "preserved, equals the model's shuffle, generator state afterwards equal); shufraw (the trait's shuffle driven by a "
-        "replayed raw stream: every draw vector for slices <= 6 (quick) / <= 8 (thorough), adversarial words); permstat "
+        "replayed raw stream: every draw vector for slices <= 6 (quick) / <= 8 (thorough), adversarial words); shufall (all n! draw vectors, also offset by multiples of i+1, produce every permutation exactly once, "
+        "n <= 7 quick / 8 thorough); permstat "
         "(permutation frequencies over consecutive seeds). non-trivial = distinct in-domain case that is not a gen line of a "
         "range with fewer than two values")
 ASSUMPTIONS = [
